@@ -49,6 +49,8 @@ opk! {
     RawInsertWrongHash,
     // ---- extend with an iterator whose size_hint lower bound is near the integer limits
     ExtendHint,      // arg: hint selector
+    // ---- read-only probe: lookups / removals through an unsized borrowed key form on a mirror collection
+    BorrowProbe,
 }
 
 #[derive(Clone, Copy, PartialEq, Eq, Hash, PartialOrd, Ord)]
